@@ -44,7 +44,11 @@ func e17(n int64) sdkmath.Int { return sdkmath.NewInt(n).Mul(sdkmath.NewInt(1000
 
 // NewFixture: signer S with a delegation to V1 and pending rewards; the three frame contracts
 // hold generic staking grants from S (so delegations on S's behalf from a contract succeed).
-func NewFixture() *Fixture {
+func NewFixture() *Fixture { return NewFixtureOpts(true) }
+
+// NewFixtureOpts: withGrants=false leaves the authz store empty (C04 builds its own grants); the
+// third account T then also holds a delegation with pending rewards.
+func NewFixtureOpts(withGrants bool) *Fixture {
 	cp := coinomicstypes.DefaultParams()
 	w := world.New(world.Options{NumAccounts: 5, NumVals: 2, Coinomics: &cp, Balance: e17(100)})
 	f := &Fixture{W: w, S: 1, Wd: 2, T: 3}
@@ -55,7 +59,12 @@ func NewFixture() *Fixture {
 		panic(err)
 	}
 	exp := w.Header.Time.Add(1000 * time.Hour)
-	for id := 0; id < 3; id++ {
+	if !withGrants {
+		if _, err := w.RunMsg(ctx, stakingtypes.NewMsgDelegate(w.Addrs[f.T], w.ValAddr[0], sdk.NewCoin(world.Denom, e17(10)))); err != nil {
+			panic(err)
+		}
+	}
+	for id := 0; id < 3 && withGrants; id++ {
 		grantee := sdk.AccAddress(world.ContractAddr(byte(0x10 + id)).Bytes())
 		for _, t := range []stakingtypes.AuthorizationType{stakingtypes.AuthorizationType_AUTHORIZATION_TYPE_DELEGATE, stakingtypes.AuthorizationType_AUTHORIZATION_TYPE_UNDELEGATE} {
 			a, err := stakingtypes.NewStakeAuthorization([]sdk.ValAddress{w.ValAddr[0], w.ValAddr[1]}, nil, t, nil)
